@@ -244,8 +244,8 @@ def crop_leading(ctx, rule="C13.crop"):
                              (isinstance(top, ast.Call) and len(top.args) >= 2 and top.args[0] is u))
             ctx.ob(rule, f.site, ok, "" if ok else f"`{ast.unparse(top)[:60]}`: the crop value is not the "
                    "lower bound of a slice / start of a range - the wrong end of the time bins is kept", role=f"crop-use:{k}", line=u.lineno)
-    ctx.require(n >= 2, f"only {n} uses of get_crop_value() found in engine.py")
-    ctx.floor(rule, 2)
+    ctx.require(n >= 1, f"only {n} uses of get_crop_value() found in engine.py")
+    ctx.floor(rule, 1)
 
 
 def rules(ctx):
